@@ -277,6 +277,20 @@ pub fn run(ctx: &Ctx) {
     });
 
     let seed = ctx.seed;
+    let zl_step = ctx.tier.pick(5usize, 1usize);
+    ctx.listed("extraction_zero_limb_master_keys", "master keys with an all-zero 64-bit limb (also the least significant one: multiples of 2^64) below a non-zero limb, three key kinds (every 5th pattern in the quick tier)", move || {
+        let n = &r9::params().n;
+        let mut v = Vec::new();
+        for (i, k) in gen::zero_limb_scalars().into_iter().enumerate() {
+            if i % zl_step != 0 || &k >= &(n - 1u32) || k <= BigUint::one() {
+                continue;
+            }
+            // stored k is mapped to k mod (N-1) + 1
+            v.push(Extract { hid: 1 + (i % 3) as u8, k: gen::hex32(&(&k - 1u32)), craft_fail: false, id_len: 1 + i % 20, id_seed: seed ^ (0x2e16 + i as u64) });
+        }
+        v
+    }, check_extract);
+
     ctx.listed("extraction_edge_keys", "master keys {1, 2, N-2, N-1} and crafted N - H1(ID||hid) x three key kinds x several identities", move || {
         let n = &r9::params().n;
         let mut v = Vec::new();
